@@ -243,6 +243,8 @@ class Exec:
         self.global_objs = {}
         self.global_refs = {}
         self.yield_hook = None
+        self.formatted = []
+        self.fstring_literals = []
         self.last_snapshot_kind = 'seq'
         self.loop_havocs = []
 
@@ -578,7 +580,28 @@ class Exec:
         else:
             ref = v
         k = self.known_cls.get(ref.get_id())
-        return k[1] if k else None
+        if k:
+            return k[1]
+        return self.class_from_solver(v, ref)
+
+    def class_from_solver(self, v, ref):
+        """the path condition may fix the class although the term is not one that was registered"""
+        if v.sort() == Val and self.check_sat(z3.Not(L.is_Obj(v))) != z3.unsat:
+            return None
+        if self.check_sat() != z3.sat:
+            return None
+        sh = self.engine.shapes
+        c = self.solver.model().eval(L.cls_of(ref), model_completion=True)
+        if z3.is_int_value(c):
+            for name, cid in sh.class_id.items():
+                if cid == c.as_long():
+                    if self.check_sat(L.cls_of(ref) != cid) == z3.unsat:
+                        self.known_cls[ref.get_id()] = (ref, name, True)
+                        return name
+        if self.check_sat(z3.Not(sh.is_instance(ref, 'Op'))) == z3.unsat:
+            self.known_cls[ref.get_id()] = (ref, 'Op', False)
+            return 'Op'
+        return None
 
     def assume_elem(self, v):
         """global element invariant: values held in containers / scopes are language values"""
@@ -911,6 +934,7 @@ class Exec:
         if isinstance(v, int):
             return L.IntV(v)
         if isinstance(v, str):
+            self.fstring_literals.append(v)
             return self.str_lit(v)
         if isinstance(v, float):
             return self.engine.float_lit(self, v)
@@ -1006,7 +1030,11 @@ class Exec:
         for part in node.values:
             if isinstance(part, ast.FormattedValue):
                 v = self.eval(part.value, env)
+                if isinstance(v, z3.ExprRef):
+                    self.formatted.append(L.simp(v))
                 self.engine.model.format_value(self, v)
+            elif isinstance(part, ast.Constant) and isinstance(part.value, str):
+                self.fstring_literals.append(part.value)
         return self.fresh_str('fstr')
 
     def ex_Lambda(self, node, env):
